@@ -223,6 +223,7 @@ ring_mod!(
 fn run_case(line: &str, pools: &[ThreadPool]) -> String {
     guarded(|| {
         let t: Vec<&str> = line.split_whitespace().collect();
+        if t[0] == "decompw" { return decomp_wide(&t, pools); }
         let mut c = Cur { t: &t, k: 2 };
         let r = match t[1] {
             "Z" => rz::run(t[0], &mut c, pools),
@@ -235,6 +236,43 @@ fn run_case(line: &str, pools: &[ThreadPool]) -> String {
         r
     })
     .unwrap_or("TOP-PANIC".into())
+}
+
+/// `decompw <stars> <leaves> <len> <hubpos>`: a matrix too large for the nat-indexed model (tens of thousands of
+/// rows) given by its parameters: `stars` components, each with one LONG hub column (len private rows) that shares
+/// one further row with each of its `leaves` one-entry leaf columns; leaf columns first and hubs last (hubpos = 1)
+/// or hubs first (0).  Every merge is a bridge onto a hub and the intersection test of a (leaf, hub) pair walks
+/// the whole hub column, so concurrent merges onto the same root overlap in time.
+/// The result line is a summary that the parameters determine: the sorted multiset of (rows, cols, nnz) of the
+/// returned blocks and the totals; every pool and repetition must give the same summary.
+fn decomp_wide(t: &[&str], pools: &[ThreadPool]) -> String {
+    let (stars, leaves, len, hubpos): (usize, usize, usize, usize) =
+        (t[1].parse().unwrap(), t[2].parse().unwrap(), t[3].parse().unwrap(), t[4].parse().unwrap());
+    let n = stars * (leaves + 1);
+    let block = len + leaves;
+    let m = stars * block;
+    let mut entries: Vec<(usize, usize, i64)> = vec![];
+    for s in 0..stars {
+        let row0 = s * block;
+        let hub_col = if hubpos == 1 { leaves * stars + s } else { s };
+        for q in 0..len { entries.push((row0 + q, hub_col, if q % 2 == 0 { 1 } else { -1 })); }
+        for k in 0..leaves {
+            let leaf_col = if hubpos == 1 { k * stars + s } else { stars + k * stars + s };
+            entries.push((row0 + len + k, hub_col, 2 + k as i64));
+            entries.push((row0 + len + k, leaf_col, 1));
+        }
+    }
+    let a = yui_matrix::sparse::SpMat::<i64>::from_entries((m, n), entries);
+    in_pools(pools, &|| {
+        let (p, q, bs) = dir_sum_decomp(a.clone());
+        let mut v: Vec<(usize, usize, usize)> = bs.iter().map(|b| (b.nrows(), b.ncols(), b.iter().filter(|(_, _, x)| **x != 0).count())).collect();
+        v.sort();
+        let mut ps = p.vec().to_vec(); ps.sort();
+        let mut qs = q.vec().to_vec(); qs.sort();
+        let perm_ok = ps.iter().enumerate().all(|(i, &x)| i == x) && qs.iter().enumerate().all(|(i, &x)| i == x) && ps.len() == m && qs.len() == n;
+        format!("blocks={} perm={} shapes={}", bs.len(), perm_ok as u8,
+                v.iter().map(|(a, b, c)| format!("{}x{}:{}", a, b, c)).collect::<Vec<_>>().join(","))
+    })
 }
 
 // ------------------------------------------------------------------------------------------------
@@ -620,6 +658,33 @@ fn gen_decomp_cases(r: &mut Rng, ring: &str, count: usize, maxn: usize, emit: &m
     }
 }
 
+/// wide matrices (35..80 non-empty columns) whose column-intersection graph consists of a few stars with the hub
+/// column at the largest index and long leaf columns: every merge is a bridge and many of them target the same
+/// root, so a grouping protocol that is not atomic per merge loses updates under 2..16 threads
+fn gen_decomp_wide(r: &mut Rng, ring: &str, count: usize, emit: &mut dyn FnMut(String)) {
+    for _ in 0..count {
+        let stars = 1 + r.below(3) as usize;
+        let leaves_per: Vec<usize> = (0..stars).map(|_| 12 + r.below(16) as usize).collect();
+        let nleaves: usize = leaves_per.iter().sum();
+        let n = nleaves + stars;                       // hubs are the last `stars` columns
+        let private = 3 + r.below(5) as usize;         // private rows per leaf (long columns)
+        let m = nleaves * (1 + private);
+        let mut g = GM::new(m, n);
+        let mut leaf = 0usize;
+        for (s, &k) in leaves_per.iter().enumerate() {
+            let hub = nleaves + s;
+            for _ in 0..k {
+                let base = leaf * (1 + private);
+                g.set(base, leaf, val_tok(r, ring));
+                g.set(base, hub, val_tok(r, ring));
+                for q in 0..private { g.set(base + 1 + q, leaf, val_tok(r, ring)); }
+                leaf += 1;
+            }
+        }
+        emit(format!("decomp {} {}", ring, g.toks()));
+    }
+}
+
 fn main() {
     quiet_panics();
     let pools: Vec<ThreadPool> =
@@ -664,6 +729,17 @@ fn main() {
                 gen_invalid_cases(&mut rr, ring, 120 * f, &mut emit);
                 gen_schur_cases(&mut rr, ring, 300 * f, 10, &mut emit);
                 gen_decomp_cases(&mut rr, ring, 300 * f, 12, &mut emit);
+            }
+            {
+                let mut rr = r.fork();
+                gen_decomp_wide(&mut rr, "Z", 10 * f, &mut emit);
+                gen_decomp_wide(&mut rr, "F7", 4 * f, &mut emit);
+                // very long columns (a wide window between reading the roots and merging them)
+                for k in 0..(5 * f) {
+                    let (leaves, stars, len) = *rr.pick(&[(3usize, 16usize, 10000usize), (3, 32, 4000), (7, 8, 10000), (5, 12, 6000), (2, 24, 8000)]);
+                    let leaves = leaves + rr.below(2) as usize;
+                    emit(format!("decompw {} {} {} {}", stars, leaves, len, if k % 5 == 4 { 0 } else { 1 }));
+                }
             }
             o.finish();
         }
